@@ -41,12 +41,15 @@ CORE = ["cmd", "model", "clock", "heights", "treeprior"]
 
 def to_argv(cfg, data):
     ymd = cfg.get("_data") == "ymd"
+    same = cfg.get("_data") == "same"
     aln = "aln_ymd.fa" if ymd else ("aln_codon.fa" if cfg.get("model") == "MG94" else
-                                    "aln_rich.fa" if cfg.get("_data") == "rich" else "aln.fa")
+                                    "aln_rich.fa" if cfg.get("_data") == "rich" else "aln_same.fa" if same else "aln.fa")
     a = [cfg["cmd"]] + ([] if cfg.get("_poisson") else ["-i", str(data / aln)])
     clock = cfg.get("clock")
     regression = cfg.get("init") in ("heights_init_regression", "rate_init_regression")
     rooted = "rooted_ymd.nwk" if ymd else ("rooted_subst.nwk" if regression else "rooted.nwk")
+    if same:
+        rooted = "rooted_same_subst.nwk" if regression else "rooted_same.nwk"
     a += ["-t", str(data / (rooted if clock else "unrooted.nwk"))]
     a += ["-m", cfg.get("model", "JC69")]
     if cfg.get("model") == "MG94" and "--genetic_code" not in (cfg.get("extra") or []) and not cfg.get("_no_code"):
@@ -132,11 +135,20 @@ def to_argv(cfg, data):
     elif init == "disable_time_aware":
         a += ["--disable_time_aware"]
     a += [x.replace("DATA/", str(data) + "/") for x in (cfg.get("extra") or [])]
+    # the SPELLING of the sampling dates (the same dates given another way)
+    sp = cfg.get("_spelling")
+    if sp == "dates0":
+        a += ["--dates", "0"]
+    elif sp == "csv":
+        a += ["--dates", str(data / ("dates_same.csv" if same else "dates_exact.csv"))]
+    elif sp == "regex":
+        a += ["--date_regex", r"_(\d+\.?\d*)$"]
     return a
 
 
 def key(cfg):
-    return tuple((k, cfg.get(k)) for k in FACTORS) + (tuple(cfg.get("extra") or ()), cfg.get("_data"))
+    return tuple((k, cfg.get(k)) for k in FACTORS) + (tuple(cfg.get("extra") or ()), cfg.get("_data"), cfg.get("_spelling"),
+                                                            cfg.get("_overridden"))
 
 
 # every documented option once, on a configuration it concerns: (sub-commands, base factors, raw extra arguments)
@@ -228,6 +240,46 @@ def derived_starts():
         for init in ("heights_init_regression", "rate_init_regression", "heights_init_tree"):
             yield dict(base, cmd=cmd, clock="strict", init=init, _data="rich")
         yield dict(base, cmd=cmd, init="keep", _data="rich")
+
+
+def precedence():
+    """OPTION PRECEDENCE: a fixing / explicit option and an initialising / derived option that address the same quantity
+    given together - the value must be the fixed / explicit one (and lie within its own bounds).  `_overridden` names the
+    option that must lose (so that its having no effect is not reported as an ignored option)."""
+    base = {"model": "JC69", "categories": 1, "invariant": False, "clock": "strict", "heights": "ratio", "treeprior": None,
+            "grid": None, "cutoff": None, "family": "meanfield", "distribution": "Normal", "init": None}
+    for cmd in FACTORS["cmd"]:
+        for heights in ("ratio", "shift"):
+            b = dict(base, cmd=cmd, heights=heights)
+            # --rate R fixes the clock rate: no starting value may replace it
+            for extra in (["--rate_init", "0.002"], ["--rate_init", "regression"], ["--heights_init", "regression"]):
+                yield dict(b, init="rate_fixed", extra=extra, _overridden=extra[0])
+            # an explicit number beats a derived value
+            yield dict(b, init="rate_init", extra=["--heights_init", "regression"], _overridden="--heights_init")
+            yield dict(b, init="root_height_init", extra=["--heights_init", "regression"], _overridden="--heights_init")
+            yield dict(b, init="root_height_init", extra=["--rate_init", "regression"], _overridden="--rate_init")
+            yield dict(b, init="coalescent_init", treeprior="constant", extra=["--heights_init", "tree"], _overridden="--heights_init")
+        yield dict(base, cmd=cmd, init="root_height_init", treeprior="skygrid", grid=4, cutoff=8.0)
+        yield dict(base, cmd=cmd, init="rate_fixed", clock="strict", treeprior="constant", extra=["--rate_init", "0.002"],
+                   _overridden="--rate_init")
+
+
+def date_spellings():
+    """equivalent SPELLINGS of the same sampling dates (the dates in the names read by the default pattern, by an explicit
+    --date_regex, from a csv that repeats them; for contemporaneous data also --dates 0), heterochronous and
+    contemporaneous data, with and without the regression starts: the emitted model must not depend on the spelling"""
+    base = {"model": "JC69", "categories": 1, "invariant": False, "clock": "strict", "heights": "ratio", "treeprior": None,
+            "grid": None, "cutoff": None, "family": "meanfield", "distribution": "Normal", "init": None}
+    for cmd in FACTORS["cmd"]:
+        for init in (None, "heights_init_regression", "rate_init_regression", "heights_init_tree"):
+            for data, spellings in ((None, ("names", "regex", "csv")), ("same", ("names", "regex", "csv", "dates0"))):
+                for sp in spellings:
+                    c = dict(base, cmd=cmd, init=init, _spelling=sp)
+                    if data:
+                        c["_data"] = data
+                    yield c
+            yield dict(base, cmd=cmd, init=init, treeprior="constant", _data="same", _spelling="names")
+            yield dict(base, cmd=cmd, init=init, treeprior="constant", _data="same", _spelling="dates0")
 
 
 def single_options():
